@@ -350,6 +350,8 @@ func checkC10(c *Ctx) {
 			c.ruleEOFNotSuccess("G4.eofok", fn)
 		}
 	}
+	// a decoded descriptor shares no memory with the buffer it was read from
+	c.ruleNoAlias("G9.copy")
 	c.ruleAppendOnly("G15.append", "efi/signature.WriteWinCertificate", "efi/signature.WriteWinCertificateUEFIGUID", "efi/signature.WriteEFIVariableAuthencation2")
 	c.R.Floor("G15.append", 3)
 	c.ruleShortCopy("G16.short", "efi/signature.ReadWinCertificate", "efi/signature.ReadWinCertificateUEFIGUID", "efi/signature.ReadEFIVariableAuthencation2")
